@@ -239,11 +239,10 @@ func (t *SymTab) AddrSym(s string) string {
 	if sym, ok := t.strRev[s]; ok {
 		return sym
 	}
-	switch s {
-	case "":
-		return "EMPTY"
-	case "not-an-address":
-		return "GARBAGE"
+	for _, c := range []string{"EMPTY", "GARBAGE", "WRONG_PREFIX", "BAD_CHECKSUM", "NON_ASCII"} {
+		if t.AddrString(c) == s {
+			return c
+		}
 	}
 	return "?" + s
 }
